@@ -297,6 +297,12 @@ for _k, (_lt, _rule) in _ADD.items():
     PROPS[_k]['level_text'] = PROPS[_k]['level_text'] + _lt
     PROPS[_k]['rule'] = PROPS[_k]['rule'] + _rule
 # round-4 additions (rule text only, appended after the addenda above)
+_ADD4L = {
+    'C01': ' push_touches_only_its_type: handling a response of one type changes neither cache, access records, interest set nor version of any other type (state level).',
+    'C04': ' nonce_frame: the recorded nonce of a type changes only by a response of that type (to its nonce) or a reconnect (to empty); subscription_request_echoes_recorded_nonce: a subscription change echoes the recorded, i.e. latest, nonce.',
+}
+for _k, _t in _ADD4L.items():
+    PROPS[_k]['level_text'] = PROPS[_k]['level_text'] + _t
 _ADD4 = {
     'C01': ' Plus: clusters in the linked form (an EDS cluster naming an endpoint set of the universe): one type\'s responses never change what another type serves; whether a type is subscribed is the script\'s own knowledge (start-up, lookups), not read from the client.',
     'C02': ' Plus: the never-subscribed rule is judged against the history\'s knowledge of subscriptions (a client that wrongly believes a type subscribed cannot steer the check away), also after reconnects.',
